@@ -181,3 +181,83 @@ def run(F, R, ctx):
     dn = F.fns.get(nt.get("drop") or "")
     R.inst("C20.c", "NurseryAccessToken::drop frees all", dn is not None and bool(dn.call_blocks(r"OpaqueReferenceNursery\}::free_all$", wrappers=True)),
            "NurseryAccessToken's destructor no longer clears the nursery", "%s:%s" % (nt["file"], nt["line"]), sample=True)
+    roundtrip_rule(F, R)
+
+
+# ---------------------------------------------------------------------------------------------------------------------
+# C20.r — what a host type converts INTO, it converts back FROM
+def _returned_variants(F, fn, depth=2, seen=None):
+    """SteelVal variants of the value a conversion returns (aggregates that flow into the return place; callees in the
+    workspace followed `depth` levels). Second result: the value may also come from a conversion we cannot see through."""
+    seen = seen if seen is not None else set()
+    if fn.name in seen:
+        return set(), False
+    seen.add(fn.name)
+    src = lib.alias_sources(fn, "_0", depth=8)
+    bases = {"_0"}
+    for s_ in src:
+        bases |= {t.split(".")[0] for t in lib.TOK.findall(s_)}
+    out, opaque = set(), False
+    for b in fn.blocks:
+        if b["c"]:
+            continue
+        last = None
+        for e in b["e"]:
+            if e[0] == "mv":
+                last = e[1].split(".")[0]
+            elif e[0] == "kv" and e[2].startswith("variant:SteelVal::") and e[1].split(".")[0] in bases:
+                out.add(e[2].split("::")[-1])
+            elif e[0] == "agg" and e[1] == "SteelVal" and e[4] and last in bases:
+                out.add(e[2])
+        if b["k"] == "call" and b.get("dest") and b["dest"].split(".")[0] in bases:
+            c = F.fns.get(b["callee"])
+            if c is not None and "SteelVal" in c.d["out"] and depth > 0:
+                o2, op2 = _returned_variants(F, c, depth - 1, seen)
+                out |= o2
+                opaque |= op2
+            elif re.search(r"into_steelval$|::from$|::into$", b["callee"]):
+                opaque = True
+    return out, opaque
+
+
+ROUNDTRIP_EXEMPT = {
+}
+
+
+def roundtrip_rule(F, R):
+    R.rule("C20.r", "what a host type converts into, it converts back from: for every type with both an IntoSteelVal and a "
+                    "FromSteelVal impl whose from_steelval matches on the value's kind, every SteelVal variant that "
+                    "into_steelval can return (aggregates flowing into its return value, workspace callees followed two "
+                    "levels) has an explicit arm in from_steelval. nc: a host value of a supported type that is handed to a "
+                    "script and handed back is otherwise reported as a conversion error (e.g. a u64 above the fixnum range "
+                    "becomes a BigNum, which the integer conversions must accept)")
+    into, frm = {}, {}
+    for name, fn in F.fns.items():
+        m = re.search(r"\{impl IntoSteelVal for (.+)\}::into_steelval$", name)
+        if m and name.startswith("steel::"):
+            into[m.group(1)] = fn
+        m = re.search(r"\{impl FromSteelVal for (.+)\}::from_steelval$", name)
+        if m and name.startswith("steel::"):
+            frm[m.group(1)] = fn
+    n = 0
+    for t in sorted(set(into) & set(frm)):
+        sws = lib.enum_switches(frm[t], "SteelVal")
+        if not sws:
+            continue           # delegates (Option<T>: truthiness; SteelVal: identity)
+        accepted = set()
+        for sb in sws:
+            accepted |= {v for v, _ in frm[t].blocks[sb]["targets"]}
+        produced, opaque = _returned_variants(F, into[t])
+        if not produced:
+            continue
+        n += 1
+        missing = sorted(produced - accepted)
+        if t in ROUNDTRIP_EXEMPT:
+            R.inst("C20.r", "%s: into ⊆ from (allowlisted)" % t, True, sample={"reason": ROUNDTRIP_EXEMPT[t]}, nontrivial=False)
+            continue
+        R.inst("C20.r", "%s: every kind into_steelval returns has an arm in from_steelval" % t, not missing,
+               "IntoSteelVal for %s can return SteelVal::%s, which FromSteelVal for %s has no arm for (it accepts %s): a %s "
+               "that went into a script does not come back — the conversion reports an error for a value of a supported type "
+               "that is in range" % (t, "/".join(missing), t, "/".join(sorted(accepted)), t),
+               frm[t].loc(), sample={"type": t, "into": sorted(produced), "from": sorted(accepted)})
+    R.floor("C20.r", "types with both conversions and a kind match", n, 20)
